@@ -15,6 +15,7 @@ import (
 	"sort"
 	"strconv"
 	"strings"
+	"time"
 
 	"github.com/martian-lang/martian/martian/core"
 	"github.com/martian-lang/martian/martian/syntax"
@@ -81,6 +82,10 @@ type Options struct {
 	// running jobs record "_errors: Caught signal terminated", as mrjob does
 	// on SIGTERM, instead of vanishing without a trace.
 	JobsCatchSignal bool
+	// NoRetryWait: mrp runs with --retry-wait=0 and the wall clock (of the
+	// files rewritten with "time=") stands still during the run: the
+	// automatic restart happens within the second of the failure.
+	NoRetryWait bool
 	// Stragglers: monitors of a previous incarnation's jobs that are still
 	// alive; each records "Caught signal terminated" (in ITS directory, under
 	// ITS journal name) right after this incarnation has started the next
@@ -447,6 +452,11 @@ func Run(p *progen.Program, sched Schedule, opts Options) (res *Result) {
 		return
 	}
 	res.H = h
+	if opts.NoRetryWait {
+		h.RetryWait = 0
+		vshim.Frozen = time.Now().Truncate(time.Second)
+		defer func() { vshim.Frozen = time.Time{} }()
+	}
 	if opts.Resume {
 		err = h.Reattach(src, filepath.Join(mroDir, "prog.mro"), Psid, psdir, []string{mroDir}, true)
 	} else {
